@@ -93,7 +93,7 @@ def fidelity_check(mod, tier, tmpdir, box):
     base = ["-q", "-p", "no:cacheprovider", "-x", "--no-header", "-W", "ignore"] + tests
     code_shadow = (
         "import sys, importlib; sys.path.insert(0, %r); m = importlib.import_module(%r);"
-        "from vf.sym import loader; loader.install(m.profile() if hasattr(m,'profile') else None);"
+        "from vf.sym import loader; loader.install(m.fidelity_profile() if hasattr(m,'fidelity_profile') else (m.profile() if hasattr(m,'profile') else None));"
         "import pytest; sys.exit(pytest.main(%r))" % (HERE, mod.__name__, [a for a in base if a != "-x"] + ["--junitxml", j2]))
     env = clean_env()
     env["PYTHONPATH"] = HERE + os.pathsep + os.path.join(REPO, "src")
